@@ -63,3 +63,4 @@ def build(eng, tier):
                  # nothing of the original value is written
                  "value._shape is old(value._shape) and value._type is old(value._type) and value._name == old(value._name)"],
         raises_default=[], assert_mode="raise"))
+
